@@ -31,11 +31,19 @@ def analysisVerdict (spec : Json → Json → String) (inp impl : Json) : Verdic
       ((relNames.map (fun rn => (relTables.filter (·.name == rn)).any (fun t2 => t2.cols.any (·.name == col.name)))).filter id).length > 1))
   -- the column length (MySQL tinyint(1) = bool) is not copied into result columns / parameters
   let lenDrop := relTables.any (fun t => t.cols.any (fun col => col.tname == "tinyint" && col.length == some 1))
+  -- a coalesce() without a bare column argument is named "coalesce" whatever its AS alias says
+  let coalesceAlias := (src.search (fun n => n.isKind "ResTarget")).any (fun rt =>
+    !(rt.get "Name").isNull && (rt.get "Val").isKind "CoalesceExpr" &&
+    !(((rt.get "Val").get "Args").items.any (·.isKind "ColumnRef")))
+  -- column alias lists (`AS t(a, b)`, `WITH t(a, b) AS`) are ignored
+  let aliasList := (src.search (fun n => n.isKind "Alias")).any (fun a => !(a.get "Colnames").items.isEmpty) ||
+    (src.search (fun n => n.isKind "CommonTableExpr")).any (fun c => !(c.get "Aliascolnames").items.isEmpty)
   { model := run.model, compare := !walkPanic && !reparseRejected impl, frag := if walkPanic then "out:walk-panic" else if reparseRejected impl then "out:reparse-rejected" else "in",
     specImpl := spec inp impl,
     trig := run.trig ++ (if ml then ["scopeLeak"] else []) ++ (if repeated then ["repeatedPlaceholder"] else []) ++
       (if exprCol then ["exprColumn"] else []) ++ (if needsQ then ["needsQuoting"] else []) ++
-      (if resShared then ["reservedShared"] else []) ++ (if lenDrop then ["lengthDropped"] else []),
+      (if resShared then ["reservedShared"] else []) ++ (if lenDrop then ["lengthDropped"] else []) ++
+      (if coalesceAlias then ["coalesceAlias"] else []) ++ (if aliasList then ["aliasListIgnored"] else []),
     implProj := some (implProjection impl) }
 
 def c02 (kind : String) (inp impl : Json) : Verdict :=
